@@ -1,5 +1,5 @@
 #!/bin/bash
-# one-time setup after a fresh restore: build the native driver and pre-dump MIR (offline)
+# one-time setup after a fresh restore: build the native driver, pre-dump MIR, pre-build the Kani harness crate (all offline)
 set -e
 cd "$(dirname "$0")"
 export CARGO_NET_OFFLINE=true
@@ -8,6 +8,6 @@ import sys; sys.path.insert(0, 'engine')
 import common
 common.load_mir('std')
 from driver import Driver
-Driver('dev').build()
+Driver('dev').build(); Driver('release').build()
 print('setup ok')
 PY
